@@ -114,8 +114,26 @@ def warmup():
     class IO:
         def progress(self, o):
             pass
+    found = []
     for i in range(5):
-        run_job({'i': i, 'seed': 99}, IO())
+        try:
+            out = run_job({'i': i, 'seed': 99}, IO())
+        except NotPristine as e:
+            # an earlier warm-up program left a mode flag behind without noticing it itself
+            found.append({'cls': 'not-restored', 'site': 'warmup-history', 'msg': str(e)[:1500]})
+            break
+        found.extend(out.get('violations') or [])
+        if found:
+            break
+    if found:
+        # leave nothing behind for the runs that are forked from this process
+        for ns in ('', 'a', 'b'):
+            _C.set_dict_insertion_ordered(False, ns)
+    return found
+
+
+class NotPristine(Exception):
+    pass
 
 
 def key_ns(ns):
@@ -516,7 +534,7 @@ def run_job(job, io):
     decorated = {(m, key_ns(n)): optree.dict_insertion_ordered(m, namespace=n)(_call_body) for m in (True, False) for n in NS_CHOICES}
     initial = observe(model, viol, 'initial', probes, extra_tree)
     if violations:
-        raise AssertionError('mode set not pristine at run start: %r' % violations)
+        raise NotPristine('mode set not pristine at run start: %r' % violations)
     if sweep is not None:
         # parse the parenthesis shape into a forest with symbols assigned in pre-order
         syms = list(sweep['syms'])
